@@ -67,8 +67,25 @@ VARIANTS = {
     'whitespace': {'whitespace': ''},
     'start': {'start': 'other'},
     'config': {'config': 'CFG'},
+    # an option that only IMPLIES model building (no asmodel=True, no semantics): the cache key must see it
+    'basetype': {'basetype': 'BASE'},
 }
 PARSE_VARIANTS = {'none': {}, 'asmodel': {'asmodel': True}, 'start': {'start': 'other'}, 'ignorecase': {'ignorecase': True}}
+
+
+def base_type():
+    """the basetype=<class> variant: one class per process, created on first use"""
+    global _BASE
+    if _BASE is None:
+        from tatsu.objectmodel import Node
+
+        class C10Base(Node):
+            pass
+        _BASE = C10Base
+    return _BASE
+
+
+_BASE = None
 
 
 class Sem:
@@ -119,7 +136,7 @@ def op_src(op, gname='grammar'):
     k = op[0]
     if k in ('C', 'P', 'S'):
         g, v = op[1], op[2]
-        kw = ', '.join(f'{a}={"Sem()" if b == "SEM" else "ParserConfig(ignorecase=True)" if b == "CFG" else repr(b)}'
+        kw = ', '.join(f'{a}={"Sem()" if b == "SEM" else "ParserConfig(ignorecase=True)" if b == "CFG" else "C10Base (a Node subclass)" if b == "BASE" else repr(b)}'
                        for a, b in VARIANTS[v].items())
         if k == 'C':
             return f'tatsu.compile(G[{g!r}]{", " + kw if kw else ""})'
@@ -211,6 +228,8 @@ def run_sequence(seq):
             sem = None
             if kw.get('semantics') == 'SEM':
                 sem = kw['semantics'] = Sem()
+            if kw.get('basetype') == 'BASE':
+                kw['basetype'] = base_type()
             cfg = None
             if kw.get('config') == 'CFG':
                 cfg = kw['config'] = ParserConfig(ignorecase=True)
@@ -452,6 +471,18 @@ def classify(seq, kind, got, ref):
     the last call shows model building that its own arguments do not ask for (or lacks it) -> asmodel leak;
     any other difference caused by an earlier call on the same grammar text -> settings of an earlier call leak"""
     last = seq[-1]
+
+    def without_mro(x):
+        if isinstance(x, dict):
+            return {k: without_mro(v) for k, v in x.items() if k != 'mro'}
+        if isinstance(x, list):
+            return [without_mro(v) for v in x]
+        return x
+
+    if got != ref and without_mro(got) == without_mro(ref):
+        # same nodes, same attributes, only the base classes of the synthesized node classes differ: the process-wide
+        # class registry handed out a class synthesized for an earlier call (other declared bases / other basetype=)
+        return 'synth-registry-ignores-declared-bases'
     if kind in ('failed-then-good', 'good-then-good', 'parse-options-then-plain-parse'):
         return 'earlier-parse-changes-later-parse-on-same-' + ('generated-parser' if last[0] == 'G' else 'model')
     gl = seq[last[1]][1] if last[0] in 'MG' else last[1]
